@@ -2055,6 +2055,8 @@ class CallMixin(object):
                 if isinstance(a, SymDict): return [(st.new_cell(SymDict(a.has, a.get, a.kty, a.vty, order=a.order)), st)]
                 raise Unsupported('dict(%r)' % (a,))
             return [(st.new_cell(PyDict(dict(kw))), st)]
+        if name == 'sorted' and isinstance(d[0], SymKeys):
+            d = [SymSet(d[0].d.has, d[0].d.kty)] + list(d[1:])      # sorted(d.keys()): the keys are a set
         if name == 'sorted' and isinstance(d[0], SymSet):
             # A4 (stdlib contract): sorted(set) is the strictly increasing sequence of exactly the set's members
             a = d[0]
@@ -2599,6 +2601,8 @@ class CallMixin(object):
             res_z = fresh(c.result.sort(), 'res_' + fi.qualname.split('.')[-1])
             res_v = wrap(c.result, res_z)
             if c.result.kind == 'Dict': res_v = st.new_cell(res_v)      # a fresh mutable dict
+            if c.result.kind == 'Obj' and getattr(self.reg.classes.get(c.result.args[0]), 'stateful', False):
+                res_v = st.new_cell(Obj(res_z, c.result.args[0]))        # a stateful library object handed out: its abstract state lives in a cell
         ns_post = NS(self, post_state, frame=frame)
         if self.track_raises and c.on_raise is not None:
             s_r = pre_state.copy(); s_r.frames.pop()
@@ -2985,6 +2989,10 @@ class Executor(Exec, ExprMixin, StmtMixin, CallMixin):
 
 def verify(prop, contract, registry=REG, track_raises=False, fi=None):
     fi = fi or get_func(contract.file, contract.qualname)
+    if fi.is_generator and contract.generator:
+        from .extract import eager_generator
+        fi = eager_generator(fi)
+        registry.assume('generator functions under contract are verified in their eager view (the list of the values they yield when consumed to the end); laziness is not modelled')
     ex = Executor(prop, contract, fi, registry=registry, track_raises=track_raises)
     ex.run()
     return ex
